@@ -62,6 +62,22 @@ def concretize(prop, ob):
     if name.startswith("main/store_object/arg:object_size"):
         out.append(("client_cli", {"argv": ["-storeobject", "-pid=cli-pid", "-path={data}",
                                             "-obj_size={size}"], "expect_bound": "cli-pid"}))
+    if "directories-are-never-removed" in name:
+        out.append(("race_store_meta_delete_all", {}))
+    if short_name(fn) in ("get_hex_digest", "_computehash") or (prop == "C02" and "post/" in name
+                                                                 and "store_object" not in fn):
+        out.append(("digest_history", {}))
+    if name.startswith("steps/") and "/S" in name:
+        out.append(("observe_steps", {}))
+    if prop == "C10" or "recover" in name or (short_name(fn) == "delete_object" and "outcome" in name):
+        out.append(("crash_recover", {}))
+    if "loop-foreach/locks-restored" in name or "vanished-entry" in name:
+        out.append(("race_delete_all_metadata", {}))
+    if short_name(fn) == "store_object" and ("post/locks" in name or "releases-held" in name
+                                             or "release-only-own" in name):
+        out.append(("race_same_pid_store", {}))
+    if name.startswith("sync/release-only-own") or name.startswith("sync/"):
+        out.append(("race_same_pid_store", {}))
     if "C-check-then-act/entry-existence" in name:
         out.append(("race_delete_all_metadata", {}))
     if name.startswith("fault["):
@@ -112,6 +128,10 @@ def concretize(prop, ob):
         out.append(("model_sweep", {"length": 4, "metadata": True, "contents": 1, "no_tag": True,
                                     "require_all": ["smeta", "delete"], "pids": ["pid-a", "pid-b"]}))
     return out
+
+
+def short_name(fn):
+    return (fn or "").split("[")[0].split(".")[-1]
 
 
 def _canon(sp):
